@@ -9,7 +9,7 @@ struct BbHarness : Harness {
     std::vector<std::string> props() const override { return {"C18"}; }
     std::vector<std::string> probes(const std::string &) const override {
         return {"rewind_partial", "rewind_fully_consumed", "add_exactly_fills", "add_refused", "consume_refused", "consume_at_most_clipped",
-                "invalid_setup_null_memory", "invalid_setup_zero_size", "invalid_setup_used_gt_size", "invalid_setup_offset_gt_used"};
+                "invalid_setup_null_memory", "invalid_setup_zero_size", "invalid_setup_used_gt_size", "invalid_setup_offset_gt_used", "count_beyond_any_block"};
     }
     uint64_t runs(const std::string &, const Tier &t) const override { return t.thorough() ? 6000000 : 1500000; }
 
@@ -54,6 +54,7 @@ struct BbHarness : Harness {
             int64_t n = r.chance(1, 6) ? (r.chance(1, 2) ? 0 : size + 1) : r.range(0, size < 8 ? size : (r.chance(1, 2) ? 8 : size));
             if (pickw < wp) { o["t"] = "P"; o["op"] = "add"; o["n"] = (long long)n; }
             else if (pickw < wp + wc) { o["t"] = "C"; o["op"] = r.chance(1, 2) ? "consume" : "atmost"; o["n"] = (long long)n; }
+            if (pickw < wp + wc && r.chance(1, 24)) o["big"] = (long long)r.below(8);   // a count near SIZE_MAX / 2^32 / wrapping the fill or read mark
             else {
                 o["t"] = "H";
                 const std::string &k = r.pick(hk);
@@ -114,14 +115,29 @@ struct BbHarness : Harness {
             const size_t bs = b.size, bu = b.used, bo = b.offset;
             int64_t nn = o.geti("n"); if (nn < 0) nn = 0; if (nn > bsize + 1) nn = bsize + 1;
             size_t n = (size_t)nn;
+            const bool big = o.has("big") && (op == "add" || op == "consume" || op == "atmost");
+            if (big) {   // counts that cannot be materialised: always more than the block holds, some chosen to wrap used+n or offset+n
+                switch (o.geti("big") & 7) {
+                case 0: n = SIZE_MAX; break;
+                case 1: n = (size_t)0 - mused; break;
+                case 2: n = (size_t)0 - mused + 1; break;
+                case 3: n = (size_t)0 - moff + (size_t)(nn & 3); break;
+                case 4: n = (size_t)1 << 63; break;
+                case 5: n = (size_t)1 << 32; break;
+                case 6: n = ((size_t)1 << 32) + (size_t)nn; break;
+                default: n = (size_t)1 << 31; break;
+                }
+                if (n <= (size_t)bsize + 1) n = SIZE_MAX;
+                COUNT("probe.count_beyond_any_block");
+            }
             c.ops_done++; c.execs++;
             if (op == "add") {
-                std::vector<uint8_t> d(n ? n : 1);
+                std::vector<uint8_t> d(big ? 1 : (n ? n : 1));
                 uint64_t s0 = serial;
-                for (size_t i = 0; i < n; ++i) d[i] = nextoctet();
+                for (size_t i = 0; !big && i < n; ++i) d[i] = nextoctet();
                 int rc = byte_buffer_add(&b, d.data(), n);
                 c.ev(EV_API, 1, n, (uint64_t)rc);
-                bool fits = mused + n <= msize;
+                bool fits = !big && mused + n <= msize;
                 if (fits) {
                     if (rc != 0) c.fail("result.add", "add of %zu octets with %zu free returned %d", n, msize - mused, rc);
                     memcpy(img.data() + mused, d.data(), n); mused += n;
@@ -134,9 +150,9 @@ struct BbHarness : Harness {
                 }
                 check("add", !fits, before, bs, bu, bo);
             } else if (op == "consume" || op == "atmost") {
-                GuardedBlock dst(n ? n : 1);
                 bool atmost = op == "atmost";
                 size_t rest = mused - moff;
+                GuardedBlock dst(big ? (rest ? rest : 1) : (n ? n : 1));
                 ssize_t rc = atmost ? byte_buffer_consume_at_most(&b, dst.p, n) : (ssize_t)byte_buffer_consume(&b, dst.p, n);
                 c.ev(EV_API, atmost ? 3 : 2, n, (uint64_t)rc);
                 bool refused;
